@@ -1,173 +1,86 @@
 (** C08 — Percent-encoding cannot change the matched rule; encoded slashes obey
-    the rule.  Property theorems only; proofs are in C08/Proofs.v.
+    the rule.  Property theorems only; proofs are in C08/Proofs.v, the
+    specification vocabulary in C08/Spec.v.
 
     [serve fx rules dflt host p q] is the way of one request with path [p] and
     query [q] through net/http's target parsing, requestcontext.extractURL,
     repository.FindRule, the route matchers and ruleImpl.Execute (C08/Model.v).
-    [fx] says which candidate repairs the modelled tree contains: [pinned] is the
-    code as it is, [fx2 fx] = fixes/C08-F2.diff (case-insensitive %2f),
-    [fx3 fx] = path_params decoded under `off`.
+    [fx] says which repairs the modelled tree contains:
+      [fixed_F2]  the tree as it is now (fix: commit a779db8, lower-case %2f recognised),
+      [pinned]    the tree before that commit (kept to document finding C08-F2),
+      [repaired]  additionally the candidate fixes/C08-F3.diff.
 
     [reenc p p'] (Base/GoUrlFacts.v): [p'] spells the same path as [p] — any
     unreserved octet percent-encoded or decoded, the hex digits of any escape in
-    either case; both well-formed. *)
+    either case (so %2F and %2f are equivalent spellings); both well-formed.
+
+    Open findings and their guards (conditions on the input, C08/Spec.v):
+      C08-F1 [guard_F1 rules p p']  a literal segment of some path expression compares
+                                    differently with the two spellings
+      C08-F3 [guard_F3 rules]       a rule with `off` and path_params
+      C08-F4 [guard_F4 p]           a byte net/url does not accept in an encoded path
+      C08-F5 [guard_F5 p]           a '$' in the decoded path *)
 From HV Require Import Base.Prelude Base.GoUrl Base.GoUrlFacts C08.Model C08.Proofs.
 
 Local Open Scope string_scope.
 
-(** Re-encoding a request path changes neither the kind of answer, nor the rule,
-    nor the captured values — for all rule sets, with or without a default rule,
-    outside the three findings: C08-F1 (a literal segment of some path
-    expression compares differently with the two spellings), C08-F2 (a lower-case
-    %2f; not needed with the repair), C08-F3 (an `off` rule with path_params; not
-    needed with the repair). *)
-Theorem C08_reencoding_invariant : forall fx rules dflt host q p p',
+(** * 1. Re-encoding changes neither the answer, nor the rule, nor the captured values *)
+
+(** for all rule sets, with or without default rule, all paths and all their
+    equivalent spellings — outside C08-F1 and C08-F3 *)
+Theorem C08_reencoding_invariant : forall rules dflt host q p p',
+  reenc p p' ->
+  guard_F1 rules p p' = false ->
+  guard_F3 rules = false ->
+  decision_eq (serve fixed_F2 rules dflt host p q) (serve fixed_F2 rules dflt host p' q).
+Proof. exact reencoding_invariant_fixed. Qed.
+Print Assumptions C08_reencoding_invariant.
+
+(** the same for every variant of the tree; the guards of repaired findings are not needed *)
+Theorem C08_reencoding_invariant_parametric : forall fx rules dflt host q p p',
   reenc p p' ->
   guard_F1 rules p p' = false ->
   (fx2 fx = true \/ guard_F2 p p' = false) ->
   (fx3 fx = true \/ guard_F3 rules = false) ->
   decision_eq (serve fx rules dflt host p q) (serve fx rules dflt host p' q).
 Proof. exact reencoding_invariant. Qed.
-Print Assumptions C08_reencoding_invariant.
+Print Assumptions C08_reencoding_invariant_parametric.
 
 Theorem C08_F1_refuted : exists rules p p',
-  reenc p p' /\ guard_F1 rules p p' = true /\ guard_F2 p p' = false /\ guard_F3 rules = false /\
-  ~ decision_eq (serve pinned rules false "h" p "") (serve pinned rules false "h" p' "").
-Proof. exact F1_refuted. Qed.
+  reenc p p' /\ guard_F1 rules p p' = true /\ guard_F3 rules = false /\
+  ~ decision_eq (serve fixed_F2 rules false "h" p "") (serve fixed_F2 rules false "h" p' "").
+Proof. exact F1_fixed_refuted. Qed.
 Print Assumptions C08_F1_refuted.
 
-Theorem C08_F2_refuted : exists rules p p',
+Theorem C08_F3_refuted : exists rules p p',
+  reenc p p' /\ guard_F1 rules p p' = false /\ guard_F3 rules = true /\
+  ~ decision_eq (serve fixed_F2 rules false "h" p "") (serve fixed_F2 rules false "h" p' "").
+Proof. exact F3_fixed_refuted. Qed.
+Print Assumptions C08_F3_refuted.
+
+(** C08-F2 on the tree before a779db8 *)
+Theorem C08_F2_pinned_refuted : exists rules p p',
   reenc p p' /\ guard_F1 rules p p' = false /\ guard_F2 p p' = true /\ guard_F3 rules = false /\
   ~ decision_eq (serve pinned rules false "h" p "") (serve pinned rules false "h" p' "").
 Proof. exact F2_refuted. Qed.
-Print Assumptions C08_F2_refuted.
-
-Theorem C08_F3_refuted : exists rules p p',
-  reenc p p' /\ guard_F1 rules p p' = false /\ guard_F2 p p' = false /\ guard_F3 rules = true /\
-  ~ decision_eq (serve pinned rules false "h" p "") (serve pinned rules false "h" p' "").
-Proof. exact F3_refuted. Qed.
-Print Assumptions C08_F3_refuted.
+Print Assumptions C08_F2_pinned_refuted.
 
 (** the hypotheses are satisfiable by a request matched through literal and
     wildcard segments, with path_params and an encoded slash, and accepted *)
 Theorem C08_reencoding_invariant_nonvacuous :
-  reenc "/api/users/j%2Fd" "/api/users/%6A%2F%64" /\
-  guard_F1 w_rules_ok "/api/users/j%2Fd" "/api/users/%6A%2F%64" = false /\
-  guard_F2 "/api/users/j%2Fd" "/api/users/%6A%2F%64" = false /\
+  reenc "/api/users/j%2Fd" "/api/users/%6A%2f%64" /\
+  guard_F1 w_rules_ok "/api/users/j%2Fd" "/api/users/%6A%2f%64" = false /\
   guard_F3 w_rules_ok = false /\
-  exists up, serve pinned w_rules_ok false "h" "/api/users/%6A%2F%64" "" = Accepted "users" false [("id", "j%2Fd")] up.
-Proof. exact reencoding_invariant_nonvacuous. Qed.
+  exists up, serve fixed_F2 w_rules_ok false "h" "/api/users/%6A%2f%64" "" = Accepted "users" false [("id", "j%2Fd")] up.
+Proof. exact reencoding_invariant_fixed_nonvacuous. Qed.
 Print Assumptions C08_reencoding_invariant_nonvacuous.
 
-(** A request whose path contains an encoded slash, in either hex case, is never
-    accepted by the default rule nor by a rule with `allow_encoded_slashes: off`
-    — outside C08-F2 (lower-case %2f; not needed with the repair) and C08-F4 (a
-    byte net/url does not accept in an encoded path). *)
-Theorem C08_off_rejects_encoded_slash : forall fx rules dflt host q p rid d cs up,
-  enc_slash p = true ->
-  guard_F4 p = false ->
-  (fx2 fx = true \/ contains "%2f" p = false) ->
-  serve fx rules dflt host p q = Accepted rid d cs up ->
-  d = false /\ exists r, In r rules /\ r_id r = rid /\ r_setting r <> Off.
-Proof. exact off_rejects_encoded_slash. Qed.
-Print Assumptions C08_off_rejects_encoded_slash.
-
-(** … and it is answered with the precondition error when a default rule is
-    configured and every rule has `off` (unless net/http refuses the target) *)
-Theorem C08_off_answers_precondition : forall fx rules host q p,
-  enc_slash p = true ->
-  guard_F4 p = false ->
-  (fx2 fx = true \/ contains "%2f" p = false) ->
-  (forall r, In r rules -> r_setting r = Off) ->
-  serve fx rules true host p q = Precondition \/ serve fx rules true host p q = BadRequest.
-Proof. exact off_answers_precondition. Qed.
-Print Assumptions C08_off_answers_precondition.
-
-Theorem C08_F2_off_refuted : exists rules p rid cs up,
-  enc_slash p = true /\ guard_F4 p = false /\ contains "%2f" p = true /\
-  (forall r, In r rules -> r_setting r = Off) /\
-  serve pinned rules true "h" p "" = Accepted rid false cs up.
-Proof. exact F2_off_refuted. Qed.
-Print Assumptions C08_F2_off_refuted.
-
-Theorem C08_F4_off_refuted : exists rules p rid cs up,
-  enc_slash p = true /\ guard_F4 p = true /\ contains "%2f" p = false /\
-  (forall r, In r rules -> r_setting r = Off) /\
-  serve pinned rules true "h" p "" = Accepted rid false cs up.
-Proof. exact F4_off_refuted. Qed.
-Print Assumptions C08_F4_off_refuted.
-
-(** The place-holder technique of rule_impl.go's [unescape] (used for `off` and
-    `no_decode`) computes "decode everything except the encoded slash" — outside
-    C08-F2 and C08-F5 (a '$' in the decoded value). *)
-Theorem C08_capture_decoding : forall fx st v,
-  wfenc v ->
-  (fx2 fx = true \/ contains "%2f" v = false) ->
-  guard_F5 v = false ->
-  unescape_capture fx st v =
-  match st with On => unescape_or_empty v | _ => decode_keep_slash v end.
-Proof. exact capture_decoding. Qed.
-Print Assumptions C08_capture_decoding.
-
-(** `no_decode`: every captured value is a piece of the request path (a segment,
-    or the rest of the path from some segment on) decoded except for the encoded
-    slash, which stays encoded; a rule that forwards without rewriting sends the
-    request path as it is — outside C08-F2, C08-F4 and C08-F5 *)
-Theorem C08_nodecode_keeps : forall fx rules dflt host q p rid cs up,
-  p <> "*" ->
-  guard_F4 p = false ->
-  (fx2 fx = true \/ contains "%2f" p = false) ->
-  guard_F5 p = false ->
-  (forall r, In r rules -> r_id r = rid -> r_setting r = NoDecode) ->
-  serve fx rules dflt host p q = Accepted rid false cs up ->
-  Forall (fun kv => exists v, piece_of p v /\ snd kv = decode_keep_slash v) cs /\
-  ((forall r, In r rules -> r_id r = rid -> exists h, r_backend r = Some {| b_host := h; b_rw := None |}) ->
-   exists u', up = Some u' /\ u_rawpath u' = p /\ wire_path u' = p).
-Proof. exact nodecode_keeps. Qed.
-Print Assumptions C08_nodecode_keeps.
-
-(** `on`: every captured value is a piece of the request path fully decoded (an
-    encoded slash becomes '/'); the upstream URL is built from the decoded path,
-    its request line contains no encoded slash *)
-Theorem C08_on_decodes : forall fx rules dflt host q p rid cs up,
-  p <> "*" ->
-  guard_F4 p = false ->
-  (fx2 fx = true \/ contains "%2f" p = false) ->
-  guard_F5 p = false ->
-  (forall r, In r rules -> r_id r = rid -> r_setting r = On) ->
-  serve fx rules dflt host p q = Accepted rid false cs up ->
-  Forall (fun kv => exists v, piece_of p v /\ snd kv = unescape_or_empty v) cs /\
-  ((forall r, In r rules -> r_id r = rid -> exists h, r_backend r = Some {| b_host := h; b_rw := None |}) ->
-   exists u', up = Some u' /\ u_rawpath u' = "" /\ u_path u' = unescape_or_empty p /\
-              enc_slash (wire_path u') = false).
-Proof. exact on_decodes. Qed.
-Print Assumptions C08_on_decodes.
-
-Theorem C08_nodecode_on_nonvacuous :
-  serve pinned w_rules_nd false "h" "/files/a%2Fb/c%20d" "" =
-    Accepted "nd" false [("rest", "a%2Fb/c d")]
-      (Some {| u_scheme := "http"; u_host := "up"; u_path := "/files/a/b/c d"; u_rawpath := "/files/a%2Fb/c%20d"; u_query := "" |}) /\
-  serve pinned w_rules_on false "h" "/files/a%2Fb/c%20d" "" =
-    Accepted "on" false [("rest", "a/b/c d")]
-      (Some {| u_scheme := "http"; u_host := "up"; u_path := "/files/a/b/c d"; u_rawpath := ""; u_query := "" |}).
-Proof. exact nodecode_on_nonvacuous. Qed.
-Print Assumptions C08_nodecode_on_nonvacuous.
-
-Theorem C08_F2_nodecode_refuted :
-  contains "%2f" "/files/a%2fb" = true /\ guard_F5 "/files/a%2fb" = false /\
-  serve pinned w_rules_nd false "h" "/files/a%2fb" "" =
-    Accepted "nd" false [("rest", "a/b")]
-      (Some {| u_scheme := "http"; u_host := "up"; u_path := "/files/a/b"; u_rawpath := "/files/a%2fb"; u_query := "" |}) /\
-  decode_keep_slash "a%2fb" = "a%2Fb".
-Proof. exact F2_nodecode_refuted. Qed.
-Print Assumptions C08_F2_nodecode_refuted.
-
-Theorem C08_F5_nodecode_refuted :
-  contains "%2f" "/files/x$$$escaped-slash$$$y" = false /\ guard_F5 "/files/x$$$escaped-slash$$$y" = true /\
-  (exists up, serve pinned w_rules_nd false "h" "/files/x$$$escaped-slash$$$y" "" = Accepted "nd" false [("rest", "x%2Fy")] up) /\
-  decode_keep_slash "x$$$escaped-slash$$$y" = "x$$$escaped-slash$$$y".
-Proof. exact F5_nodecode_refuted. Qed.
-Print Assumptions C08_F5_nodecode_refuted.
+(** a path with a malformed escape is refused with 400 before heimdall sees it
+    (so [reenc], which relates well-formed paths only, leaves nothing out) *)
+Theorem C08_malformed_rejected : forall fx rules dflt host q p,
+  unescape p = None -> serve fx rules dflt host p q = BadRequest.
+Proof. exact malformed_rejected. Qed.
+Print Assumptions C08_malformed_rejected.
 
 (** every pair of spellings the invariance theorem speaks about is recognised as
     equivalent by the evaluator of the correspondence stream *)
@@ -175,24 +88,133 @@ Theorem C08_reenc_checked_by_evaluator : forall s s', reenc s s' -> equiv_paths 
 Proof. exact reenc_equiv_paths. Qed.
 Print Assumptions C08_reenc_checked_by_evaluator.
 
-(** `off`: an accepted request has no encoded slash, and every captured value is
-    a piece of the request path, decoded — outside C08-F2, C08-F4, C08-F5 *)
-Theorem C08_off_captures_decoded : forall fx rules dflt host q p rid cs up,
-  p <> "*" ->
+(** * 2. `off` and the default rule *)
+
+(** a request whose path contains an encoded slash, in either hex case, is never
+    accepted by the default rule nor by a rule with `allow_encoded_slashes: off`
+    — outside C08-F4 *)
+Theorem C08_off_rejects_encoded_slash : forall rules dflt host q p rid d cs up,
+  enc_slash p = true ->
+  guard_F4 p = false ->
+  serve fixed_F2 rules dflt host p q = Accepted rid d cs up ->
+  d = false /\ exists r, In r rules /\ r_id r = rid /\ r_setting r <> Off.
+Proof. exact off_rejects_encoded_slash_fixed. Qed.
+Print Assumptions C08_off_rejects_encoded_slash.
+
+(** … it is answered with the precondition error when a default rule is
+    configured and every rule has `off` (unless net/http refuses the target) *)
+Theorem C08_off_answers_precondition : forall rules host q p,
+  enc_slash p = true ->
+  guard_F4 p = false ->
+  (forall r, In r rules -> r_setting r = Off) ->
+  serve fixed_F2 rules true host p q = Precondition \/ serve fixed_F2 rules true host p q = BadRequest.
+Proof. exact off_answers_precondition_fixed. Qed.
+Print Assumptions C08_off_answers_precondition.
+
+Theorem C08_off_rejects_encoded_slash_parametric : forall fx rules dflt host q p rid d cs up,
+  enc_slash p = true ->
   guard_F4 p = false ->
   (fx2 fx = true \/ contains "%2f" p = false) ->
+  serve fx rules dflt host p q = Accepted rid d cs up ->
+  d = false /\ exists r, In r rules /\ r_id r = rid /\ r_setting r <> Off.
+Proof. exact off_rejects_encoded_slash. Qed.
+Print Assumptions C08_off_rejects_encoded_slash_parametric.
+
+Theorem C08_F4_off_refuted : exists rules p rid cs up,
+  enc_slash p = true /\ guard_F4 p = true /\
+  (forall r, In r rules -> r_setting r = Off) /\
+  serve fixed_F2 rules true "h" p "" = Accepted rid false cs up.
+Proof. exact F4_off_fixed_refuted. Qed.
+Print Assumptions C08_F4_off_refuted.
+
+Theorem C08_F2_off_pinned_refuted : exists rules p rid cs up,
+  enc_slash p = true /\ guard_F4 p = false /\ contains "%2f" p = true /\
+  (forall r, In r rules -> r_setting r = Off) /\
+  serve pinned rules true "h" p "" = Accepted rid false cs up.
+Proof. exact F2_off_refuted. Qed.
+Print Assumptions C08_F2_off_pinned_refuted.
+
+(** `off`: an accepted request has no encoded slash, and every captured value is a
+    piece of the request path (a segment, or the rest of the path from some
+    segment on), decoded — outside C08-F4, C08-F5 *)
+Theorem C08_off_captures_decoded : forall rules dflt host q p rid cs up,
+  p <> "*" ->
+  guard_F4 p = false ->
   guard_F5 p = false ->
   (forall r, In r rules -> r_id r = rid -> r_setting r = Off) ->
-  serve fx rules dflt host p q = Accepted rid false cs up ->
+  serve fixed_F2 rules dflt host p q = Accepted rid false cs up ->
   enc_slash p = false /\
   Forall (fun kv => exists v, piece_of p v /\ snd kv = unescape_or_empty v) cs.
-Proof. exact off_captures_decoded. Qed.
+Proof. exact off_captures_decoded_fixed. Qed.
 Print Assumptions C08_off_captures_decoded.
 
-(** a path with a malformed escape is refused with 400 before heimdall sees it
-    (so the relation [reenc], which holds between well-formed paths only, leaves
-    nothing out) *)
-Theorem C08_malformed_rejected : forall fx rules dflt host q p,
-  unescape p = None -> serve fx rules dflt host p q = BadRequest.
-Proof. exact malformed_rejected. Qed.
-Print Assumptions C08_malformed_rejected.
+(** * 3. `no_decode` and `on` *)
+
+(** the place-holder technique of rule_impl.go's [unescape] (used for `off` and
+    `no_decode`) computes "decode everything except the encoded slash (either
+    case), which stays encoded" — outside C08-F5 *)
+Theorem C08_capture_decoding : forall st v,
+  wfenc v ->
+  guard_F5 v = false ->
+  unescape_capture fixed_F2 st v =
+  match st with On => unescape_or_empty v | _ => decode_keep_slash v end.
+Proof. exact capture_decoding_fixed. Qed.
+Print Assumptions C08_capture_decoding.
+
+(** `no_decode`: every captured value is a piece of the request path decoded
+    except for the encoded slash, which stays encoded; a rule that forwards
+    without rewriting sends the request path as it is — outside C08-F4, C08-F5 *)
+Theorem C08_nodecode_keeps : forall rules dflt host q p rid cs up,
+  p <> "*" ->
+  guard_F4 p = false ->
+  guard_F5 p = false ->
+  (forall r, In r rules -> r_id r = rid -> r_setting r = NoDecode) ->
+  serve fixed_F2 rules dflt host p q = Accepted rid false cs up ->
+  Forall (fun kv => exists v, piece_of p v /\ snd kv = decode_keep_slash v) cs /\
+  ((forall r, In r rules -> r_id r = rid -> exists h, r_backend r = Some {| b_host := h; b_rw := None |}) ->
+   exists u', up = Some u' /\ u_rawpath u' = p /\ wire_path u' = p).
+Proof. exact nodecode_keeps_fixed. Qed.
+Print Assumptions C08_nodecode_keeps.
+
+(** `on`: every captured value is a piece of the request path fully decoded (an
+    encoded slash becomes '/'); the upstream URL is built from the decoded path,
+    its request line contains no encoded slash *)
+Theorem C08_on_decodes : forall rules dflt host q p rid cs up,
+  p <> "*" ->
+  guard_F4 p = false ->
+  guard_F5 p = false ->
+  (forall r, In r rules -> r_id r = rid -> r_setting r = On) ->
+  serve fixed_F2 rules dflt host p q = Accepted rid false cs up ->
+  Forall (fun kv => exists v, piece_of p v /\ snd kv = unescape_or_empty v) cs /\
+  ((forall r, In r rules -> r_id r = rid -> exists h, r_backend r = Some {| b_host := h; b_rw := None |}) ->
+   exists u', up = Some u' /\ u_rawpath u' = "" /\ u_path u' = unescape_or_empty p /\
+              enc_slash (wire_path u') = false).
+Proof. exact on_decodes_fixed. Qed.
+Print Assumptions C08_on_decodes.
+
+Theorem C08_nodecode_on_nonvacuous :
+  serve fixed_F2 w_rules_nd false "h" "/files/a%2fb/c%20d" "" =
+    Accepted "nd" false [("rest", "a%2Fb/c d")]
+      (Some {| u_scheme := "http"; u_host := "up"; u_path := "/files/a/b/c d"; u_rawpath := "/files/a%2fb/c%20d"; u_query := "" |}) /\
+  serve fixed_F2 w_rules_on false "h" "/files/a%2fb/c%20d" "" =
+    Accepted "on" false [("rest", "a/b/c d")]
+      (Some {| u_scheme := "http"; u_host := "up"; u_path := "/files/a/b/c d"; u_rawpath := ""; u_query := "" |}).
+Proof. exact nodecode_on_fixed_nonvacuous. Qed.
+Print Assumptions C08_nodecode_on_nonvacuous.
+
+Theorem C08_F5_nodecode_refuted :
+  guard_F5 "/files/x$$$escaped-slash$$$y" = true /\
+  (exists up, serve fixed_F2 w_rules_nd false "h" "/files/x$$$escaped-slash$$$y" "" = Accepted "nd" false [("rest", "x%2Fy")] up) /\
+  decode_keep_slash "x$$$escaped-slash$$$y" = "x$$$escaped-slash$$$y".
+Proof. exact F5_nodecode_fixed_refuted. Qed.
+Print Assumptions C08_F5_nodecode_refuted.
+
+(** C08-F2 under `no_decode` on the tree before a779db8: the lower-case slash was decoded *)
+Theorem C08_F2_nodecode_pinned_refuted :
+  contains "%2f" "/files/a%2fb" = true /\ guard_F5 "/files/a%2fb" = false /\
+  serve pinned w_rules_nd false "h" "/files/a%2fb" "" =
+    Accepted "nd" false [("rest", "a/b")]
+      (Some {| u_scheme := "http"; u_host := "up"; u_path := "/files/a/b"; u_rawpath := "/files/a%2fb"; u_query := "" |}) /\
+  decode_keep_slash "a%2fb" = "a%2Fb".
+Proof. exact F2_nodecode_refuted. Qed.
+Print Assumptions C08_F2_nodecode_pinned_refuted.
